@@ -59,6 +59,58 @@ def generate(ctx, mix=None, n_quick=QUICK, n_thorough=THOROUGH):
         ops = list(w.ops)
         ops += [["hash", i] for i in range(len(w.nodes))]
         cases.append({"kind": kind, "ops": ops})
+    if mix is MIX:
+        cases = replacement_matrix() + cases
+        ctx.exhaustive_parts.append("replacement matrix: (old, new) child pairs x pre-hashed x shared x {set, nested set, update}, both kinds")
+    return cases
+
+
+def replacement_matrix():
+    """Systematic family, part of every run: a child is replaced by another node, for every pair of
+    (old, new) among equal / same-hash-different-permissions / different leaves and equal / different
+    inner nodes x the new node's hash already read or not x the new node also attached elsewhere or
+    not x {plain assignment, nested assignment, bulk update}; every cache of both ancestors is read
+    before and after."""
+    cases = []
+    nm = lambda b: b.hex()
+    for kind in ("A", "B"):
+        if kind == "A":
+            pool = [("leaf", 1), ("leaf", 1), ("leaf", 2), ("node", 1), ("node", 1), ("node", 2)]
+        else:
+            pool = [("leaf", 3), ("leaf", 3), ("leaf", 5), ("leaf", 7), ("leaf", 9), ("node", 2), ("node", 2), ("node", 4)]
+        mk = lambda t, d: ["new", d, kind == "B" and t == "node", t == "leaf"]
+        reads = lambda: [[t, p] for p in (0, 1) for t in (("hash", "ent", "mod") if kind == "B" else ("hash",))]
+        for io, (to, do) in enumerate(pool):
+            for jn, (tn, dn) in enumerate(pool):
+                if io == jn:
+                    continue
+                for pre_hash in (False, True):
+                    for shared in (False, True):
+                        for how in ("set", "nested", "upd"):
+                            if how == "nested" and kind == "A":
+                                continue
+                            ops = [["new", 2 if kind == "B" else 7, kind == "B", False], ["new", 4 if kind == "B" else 8, kind == "B", False],
+                                   mk(to, do), mk(tn, dn), ["new", 6 if kind == "B" else 9, kind == "B", False]]
+                            for t, idx in ((to, 2), (tn, 3)):
+                                if t == "node":  # give inner nodes a child of their own
+                                    ops += [mk("leaf", 3 if kind == "B" else 1)]
+                                    ops += [["set", idx, len([o for o in ops if o[0] == "new"]) - 1, nm(b"k")]]
+                            ops += [["set", 1, 2, nm(b"x")], ["set", 0, 1, nm(b"s")]]
+                            if shared:
+                                ops += [["set", 4, 3, nm(b"y")]]
+                            ops += reads()
+                            if pre_hash:
+                                ops += [["hash", 4 if shared else 3]]
+                            if how == "set":
+                                ops += [["set", 1, 3, nm(b"x")]]
+                            elif how == "nested":
+                                ops += [["set", 0, 3, nm(b"s"), nm(b"x")]]
+                            else:
+                                ops += [["upd", 1, [[nm(b"x"), 3]]]]
+                            ops += reads()
+                            n = len([o for o in ops if o[0] == "new"])
+                            ops += [["hash", i] for i in range(n)]
+                            cases.append({"kind": kind, "ops": ops})
     return cases
 
 
@@ -99,8 +151,8 @@ def run_history(ctx, case, prop):
                 return w, outs, changed_after_read
             if tag in ("ent", "mod"):
                 ents = out[1]
-                want_e = sorted(((n_, "dir" if not isinstance(c, w.Content) else "file", w.scratch(c)) for n_, c in dict.items(node)), key=lambda e: e[0] + (b"/" if e[1] == "dir" else b""))
-                if [(e[0], e[1], e[3]) for e in ents] != want_e:
+                want_e = sorted(((n_, "dir" if not isinstance(c, w.Content) else "file", int(c.data["perms"]) if isinstance(c, w.Content) else 0o040000, w.scratch(c)) for n_, c in dict.items(node)), key=lambda e: e[0] + (b"/" if e[1] == "dir" else b""))
+                if [(e[0], e[1], int(e[2]), e[3]) for e in ents] != want_e:
                     ctx.fail(case, f"op {k} {op}: reported entry list / model object differs from the from-scratch one", "stale-entries", {"op_index": k})
                     return w, outs, changed_after_read
         if tag == "coll" and prop == "C14":
@@ -121,7 +173,7 @@ def check_cases(ctx, cases, prop="C10"):
             if o[0] == "err":
                 ctx.count("err=" + o[1])
         runs.append((w, outs))
-        reqs.append({"op": "merkle_run", "ops": case["ops"]})
+        reqs.append({"op": "merkle_run", "ops": case["ops"], "leaf_class": mc.LEAF_CLASS if case["kind"] == "B" else 0})
     res = ctx.model(reqs)
     for case, (w, outs), r in zip(cases, runs, res):
         if "error" in r:
